@@ -8,9 +8,11 @@ import subprocess
 from core import REPO, VERIF, run_tlc, MachineryError
 
 
-def record(work):
+def record(work, codec=False):
     out = work.path('rec.json')
     env = dict(os.environ)
+    if codec:
+        env['VERIF_REC_CODEC'] = '1'
     env['VERIF_REC_OUT'] = out
     env['PYTHONPATH'] = os.path.join(VERIF, 'lib') + os.pathsep + REPO
     env.pop('HSZINC_VERIF', None)
@@ -81,4 +83,55 @@ def judge_maps(rep, work, rec):
         raise MachineryError('suite map traces: %d verdicts for %d traces\n%s' % (len(done), len(traces), r.out[-1200:]))
     rep.traces += len(traces)
     rep.extra['suite_map_traces'] = {'traces': len(traces), 'events': sum(len(t) for t in traces), 'rejections': len(found)}
+    return found
+
+
+def judge_codec(rep, work, rec, want):
+    """want: subset of {('parse','zinc'), ('dump','zinc'), ('parse','json'), ('dump','json')}.
+    Every document the test-suite parsed / produced is read by the specification's reader machine, which must
+    give what hszinc gave (parse) or what the grid is (dump, up to six decimals for JSON)."""
+    import absval
+    import zinccodec
+    import jsoncodec
+    found = []
+    zc, jc, zinfo, jinfo = [], [], {}, {}
+    for c in rec['codec']:
+        fmt = 'zinc' if c['mode'] == 'text/zinc' else 'json' if c['mode'] == 'application/json' else None
+        if fmt is None or (c['op'], fmt) not in want:
+            continue
+        if fmt == 'zinc':
+            n = len(zc) + 1
+            exp = c['abs'] if not (c['op'] == 'parse' and c['single']) else c['abs']
+            zc.append({'id': n, 'k': 'outcome' if c['op'] == 'parse' else 'denotes', 'strict': c['op'] == 'dump',
+                       'text': absval.cps(c['text']), 'expect': exp, 'out': 'grid', 'abs': exp, 'single': c['single'],
+                       'line': 0, 'col': 0, 'gtext': []})
+            zinfo[n] = c
+        else:
+            try:
+                tree = jsoncodec.strict_loads(c['text'])
+            except Exception:
+                continue
+            n = len(jc) + 1
+            jc.append({'id': n, 'k': 'denotes', 'tree': tree, 'strict': False, 'top': 'any', 'hasden': False, 'den': [],
+                       'q6': True, 'expect': jsoncodec.q6_doc(c['abs']) if c['op'] == 'dump' or not c['single'] else jsoncodec.q6_doc(c['abs'])})
+            jinfo[n] = c
+    if zc:
+        v = zinccodec.judge_cases(rep, work, zc, 'suite-zinc', shards=2)
+        for n, (vd, clause, pos) in sorted(v.items()):
+            if vd == 'REJECT':
+                c = zinfo[n]
+                found.append(({'engine': 'suite-codec', 'op': c['op'], 'format': 'zinc', 'clause': clause},
+                              {'text': c['text'][:2000], 'clause': clause, 'position': pos,
+                               'source': 'a %s() call made by the repository test-suite' % c['op']}))
+        rep.traces += len(zc)
+    if jc:
+        v = jsoncodec.judge_cases(rep, work, jc, 'suite-json', shards=2)
+        for n, (vd, clause) in sorted(v.items()):
+            if vd == 'REJECT':
+                c = jinfo[n]
+                found.append(({'engine': 'suite-codec', 'op': c['op'], 'format': 'json', 'clause': clause},
+                              {'text': c['text'][:2000], 'clause': clause,
+                               'source': 'a %s() call made by the repository test-suite' % c['op']}))
+        rep.traces += len(jc)
+    rep.extra['suite_codec_calls'] = {'zinc': len(zc), 'json': len(jc), 'rejections': len(found)}
     return found
